@@ -34,6 +34,9 @@ CHECKS = {
  "C10": ("fault_enumeration", "runtime fault injection: every fault-capable site of generated field trees is made to fail in turn and the emitted line compared with the expected tree (other fields intact + <key>Error); every outcome vector of failing sinks/cores enumerated over tees, multi-syncers and a user-style wrapper; recording sinks and error output observed",
          "For each seeded base case each fault site (marshaler error at a chosen position, panicking Stringer/error, unencodable reflected value, failing zap.Stringers element) fails in turn (plus a multi-fault variant); the entry goes through a real Logger and must be one valid line with all other fields exact and a '<key>Error' member where the failing field's AddTo saw the error. All vectors over {ok,(0,err),(short,err),(full,err),sync error,failing core} for 1..3 (quick) / 4 (thorough) destinations are enumerated and rotated over 2 (quick) / 5 (thorough) entries: healthy destinations get the line, failures are named on the error output, the call returns.",
          "Marshalers that panic (instead of returning an error), short writes with a nil error and the reporting of Sync errors are recorded don't-care zones.", "3/C10"),
+ "C16": ("exploration", "runtime monitor: column list learned by running the configured sub-encoders against a recorder, known-prefix matching (no splitting), context object parsed by the independent JSON parser and compared with the JSON encoder's output and the expected-value tree",
+         "All 128 presence patterns (six metadata keys x context) x N seeded cases (built-in, nil, no-op sub-encoders; separators incl. multi-byte and '{'; line endings; With-chains and field trees of C01/C02, failing fields included) through EncodeEntry and an IO core: the line must be exactly the present columns in the fixed order joined by the separator, then separator + one valid JSON object equal to the JSON encoder's fields for the same chain (and to the logged values for decodable configs), then the stack on the following lines, then the line ending. A run that does not hit all 128 patterns exits 3.",
+         "Separators belonging to empty-text columns, the separator before a context when no column exists, and a context for fields that emit nothing are recorded don't-care zones.", "3/C16"),
 }
 NOT_YET = {}
 props = [json.loads(l) for l in open(os.path.join(V, "properties.jsonl"))]
